@@ -15,6 +15,12 @@ Property oracle (independent of the model and of the library's stepping code): `
 bounded breadth-first interpreter over the textbook one-move relation with the stack
 written top-first, plus a brute-force "two applicable moves" test for determinism.  It is
 evaluated on every case, not only on disagreements.
+
+DEEP (harness/pda_deep.py): runs over 1100–3000 symbols with stacks growing to 1100–3000 and shrinking again,
+lambda-chains of 1100+ moves, one move pushing 1500–3000 symbols, tables of 1100+ rows, rows of 220–320 entries —
+judged by closed forms (verdict, number of yields, every configuration, final configuration, peak depth), DPDA
+against NPDA, no model round trip; the same constructions with parameters 2–5 go through `Ref`, the Lean model
+and the ordinary checks on every run.
 """
 from __future__ import annotations
 
@@ -25,7 +31,8 @@ from automata.pda.dpda import DPDA
 from automata.pda.npda import NPDA
 
 from harness import gen
-from harness.common import Ctx, Names, Toks, exc_name, toks
+from harness import pda_deep as PD
+from harness.common import Ctx, InfraError, Names, Toks, exc_name, toks
 
 LEVEL = "proof"
 RULE = ("cases = (PDA definition, word) for runs and (definition) for validation; corpus of past defects "
@@ -38,7 +45,15 @@ RULE = ("cases = (PDA definition, word) for runs and (definition) for validation
         "character ('Z0', 'bottom', names that are prefixes of each other; pushes as tuples of symbols, rarely "
         "as the concatenated str) and tables with rows keyed by names missing from `states` that a move of the "
         "start configuration enters (sometimes with a λ-move next to a symbol move in such a row only: must be "
-        "refused; if accepted, a word on which DPDA and NPDA disagree is searched); a run is non-trivial when at least one "
+        "refused; if accepted, a word on which DPDA and NPDA disagree is searched); deep / large instances built from "
+        "small parameter dicts with answers known in closed form (harness/pda_deep.py: a^n b^m, nested brackets with "
+        "an end marker, u c u^R, a chain of 1100+ states pushing by lambda-moves then popping by lambda-moves, one "
+        "move pushing 1500–3000 symbols, as DPDA and as NPDA with the same table; two NPDA families with a frontier "
+        "of two; all acceptance modes, accepting and rejecting twins; words of 1100–3000 symbols, stacks of "
+        "1100–3000, and the constructors on tables of 1100–1500 rows / rows of 220–320 entries with and without ONE "
+        "lambda/symbol clash) — every yield, the number of yields, the final configuration, accepts_input and "
+        "read_input against the closed form, DPDA against NPDA, no model round trip for the big ones, their small "
+        "twins through the textbook oracle, the model and the ordinary checks; a run is non-trivial when at least one "
         "move is taken; distinct = distinct (definition, word) pairs")
 ASSUMPTIONS = [
     "input symbols are single characters (the input is a str, read character by character); a stack symbol is any "
@@ -54,7 +69,13 @@ ASSUMPTIONS = [
 ]
 EXPLANATION = ("Theorems C02_* (Props/C02.lean) state the property about the model for all tables, modes and "
                "words; this run ties the model to the code by differential execution and evaluates the "
-               "property itself on the real code with an independent bounded interpreter.")
+               "property itself on the real code with an independent bounded interpreter.  The property quantifies "
+               "over inputs of any size, the model round trip is affordable only on small ones: runs of 1100–3000 moves "
+               "with stacks of that depth, lambda-chains of 1100+ moves, pushes of 1500–3000 symbols and tables of "
+               "1100+ rows are therefore judged on the real code against closed forms derived from the construction "
+               "parameters (checked against an in-place interpreter at full size and against the textbook oracle on "
+               "small twins), so that a recursion limit, a cache size, a cut-off or a fixed-size buffer inside the "
+               "readers, the stack or the determinism validation shows up as a failing input.")
 
 MODES = ("final_state", "empty_stack", "both")
 DRV = "drv_pda"
@@ -993,6 +1014,159 @@ def textbook_z0(kind: str, mode: str):
                 initial_state="q0", initial_stack_symbol="Z0", final_states={"q2"}, acceptance_mode=mode)
 
 
+# ----------------------------------------------------------------- deep / large instances (harness/pda_deep.py)
+def _bucket(ctx: Ctx, prefix: str, n: int, edges=(1, 100, 1100, 2000, 3000, 5000)):
+    lo = 0
+    for e in edges:
+        if n >= e:
+            lo = e
+    ctx.stat(f"{prefix} {lo}+")
+
+
+def _short_word(w: str) -> str:
+    return repr(w) if len(w) <= 40 else f"{w[:12]!r}…{w[-8:]!r} ({len(w)} symbols)"
+
+
+def _deep_once(c: "PD.Case", cls: str):
+    """Build the real object from the case's parameters and judge one complete run of it."""
+    kind = "D" if cls == "DPDA" else "N"
+    b = PD.guarded_call(lambda: (DPDA if kind == "D" else NPDA)(**c.kwargs(kind)))
+    if b[0] != "ok":
+        return [f"the {cls} constructor refuses the definition with {b[1]}"], dict(count=0, end="ctor", peak=0,
+                                                                                  maxlevel=0), None
+    wrong, info = PD.judge(c, cls, b[1])
+    return wrong, info, b[1]
+
+
+def check_deep(ctx: Ctx, c: "PD.Case", origin: str) -> bool:
+    """One closed-form case of harness/pda_deep.py on the real code: a deterministic table as DPDA and as the
+    NPDA with the same table, a nondeterministic one as NPDA.  Every yield of read_input_stepwise is compared
+    with the in-place textbook run (the closed-form level for the nondeterministic families); the number of
+    yields, the way the generator ends, the final configuration, the deepest stack, accepts_input and read_input
+    with the closed form; the two classes with each other.  No model round trip (the Lean driver is not asked):
+    the answers are known.  A complaint is re-confirmed on objects rebuilt from the parameters, so the replay
+    (family + parameters) re-runs exactly this.  Returns True when the case held."""
+    PD.verify_closed_form(c)           # InfraError if this harness' own closed form is wrong
+    ctx.stat(origin)
+    ctx.stat("deep:family " + c.family)
+    ctx.stat("deep:judged by closed form, no model round trip")
+    ctx.stat(f"deep:closed form {c.verdict}, mode {c.mode}")
+    _bucket(ctx, "deep:word length", len(c.word))
+    _bucket(ctx, "deep:moves of the run", c.moves)
+    _bucket(ctx, "deep:peak stack depth", c.peak)
+    if len(c.word) <= 2 and c.moves >= 1000:
+        ctx.stat("deep:1000+ lambda-moves on a word of <=2 symbols")
+    _bucket(ctx, "deep:rows of the table", len({k[0] for k, _ in c.rows}))
+    _bucket(ctx, "deep:longest push", max(len(p) for _, (_q, p) in c.rows))
+    held, verdicts = True, {}
+    for cls in (("DPDA", "NPDA") if c.deterministic else ("NPDA",)):
+        ctx.case(("DEEP", c.family, tuple(sorted(c.params.items())), cls))
+        ctx.stat("deep:run as " + cls + ("" if c.deterministic or cls == "DPDA" else " (frontier of 2)"))
+        wrong, info, _m = _deep_once(c, cls)
+        _bucket(ctx, f"deep:{cls} yields", info["count"])
+        verdicts[cls] = info.get("acc")
+        if wrong:
+            again, _i, m2 = _deep_once(PD.build(c.family, c.params), cls)
+            if not again:
+                ctx.corr_diff("deep-not-reproducible", dict(c.replay(), cls=cls), wrong[:2], "holds on a rebuilt object")
+                continue
+            held = False
+            ctx.prop_fail(f"{cls} {c.label()} reading {_short_word(c.word)} (closed form: {c.verdict} after "
+                          f"{c.moves} moves, stack depth up to {c.peak}): " + "; ".join(again[:3]),
+                          dict(c.replay(), cls=cls, definition=repr(m2)[:400] if len(c.rows) < 40 else cls), None)
+    if held and len(verdicts) == 2:
+        ctx.stat("deep:pair_both_decided")
+        if verdicts["DPDA"] != verdicts["NPDA"]:
+            held = False
+            ctx.prop_fail(f"{c.label()}: DPDA and NPDA with the same table disagree on {_short_word(c.word)}: "
+                          f"{verdicts}", dict(c.replay(), cls="pair"), None)
+    if PD.TIMEOUTS:
+        ctx.stat("deep:watchdog_hits", PD.TIMEOUTS)
+        PD.TIMEOUTS = 0
+    if len(ctx.samples) < ctx.MAX_SAMPLES and c.family in ("brackets", "lchain", "palguess"):
+        ctx.sample(dict(kind="DEEP", case=c.label(), word=_short_word(c.word),
+                        closed_form=dict(verdict=c.verdict, moves=c.moves, peak_stack=c.peak,
+                                         final=PD._show(c.final)), observed={k: repr(v) for k, v in verdicts.items()}))
+    return held
+
+
+def check_deep_ctor(ctx: Ctx, v: "PD.VCase", origin: str) -> bool:
+    """The determinism clause on a large definition: the DPDA constructor must refuse it with
+    NondeterminismError exactly when the construction put a lambda-move next to a symbol move for one stack
+    top; the NPDA constructor accepts the same table."""
+    ctx.stat(origin)
+    ctx.stat("deep:family " + v.family)
+    ctx.stat("deep:judged by closed form, no model round trip")
+    ctx.stat("deep:constructor on a large table, expected " + v.expect)
+    _bucket(ctx, "deep:rows of the table", v.rows)
+    _bucket(ctx, "deep:entries of the table", v.entries, (1, 100, 400, 1100, 2000, 3000))
+    ctx.case(("DEEPV", v.family, repr(sorted(v.params.items()))))
+    wrong, _info = PD.judge_ctor(v, DPDA, NPDA)
+    if wrong:
+        again, info = PD.judge_ctor(PD.vbuild(v.family, v.params), DPDA, NPDA)
+        if not again:
+            ctx.corr_diff("deep-not-reproducible", v.replay(), wrong[:2], "holds on a rebuilt definition")
+            return True
+        ctx.prop_fail(f"DPDA constructor on {v.label()} ({v.rows} rows, {v.entries} entries): " + "; ".join(again),
+                      dict(v.replay(), impl=info), None)
+    if PD.TIMEOUTS:
+        ctx.stat("deep:watchdog_hits", PD.TIMEOUTS)
+        PD.TIMEOUTS = 0
+    return not wrong
+
+
+def deep_selftest(ctx: Ctx):
+    """The closed forms on small twins (parameters 2–5) against the module's textbook oracle `Ref` (stack top
+    first, breadth first — shares nothing with harness/pda_deep.py) and a brute-force two-moves test; a
+    disagreement is a defect of the harness.  The twins then go through the ordinary check_table: real code,
+    Lean model and `Ref` on the very tables whose big versions are judged by closed form only."""
+    cases, vcases = PD.small_twins()
+    for c in cases:
+        PD.verify_closed_form(c)
+        bad = None
+        want_out = "returned" if c.verdict == "accept" else "raised RejectionException"
+        if c.deterministic:
+            spec = c.kwargs("D")
+            ref = Ref("D", spec)
+            tr, out = ref.expected_dpda(c.word, 400)
+            mine = [lv[0] for lv in PD.level_run(c)]
+            theirs = [(q, rest, tuple(reversed(stk))) for (q, rest, stk) in tr]
+            if ref.two_moves() or out != want_out or theirs != mine or len(tr) != c.expected_yields("DPDA") \
+                    or theirs[-1] != c.final or max(len(t[2]) for t in theirs) != c.peak:
+                bad = "deterministic run"
+        nspec = c.kwargs("N")
+        lv, out = Ref("N", nspec).expected_npda(c.word, 400, 50)
+        mine = [set(x) for x in PD.level_run(c)] + ([set()] if c.verdict == "reject" else [])
+        theirs = [{(q, rest, tuple(reversed(stk))) for (q, rest, stk) in x} for x in lv]
+        if out != want_out or theirs != mine or len(lv) != c.expected_yields("NPDA"):
+            bad = "levels"
+        if bad:
+            raise InfraError(f"pda_deep: closed form of the small twin {c.label()} disagrees with the textbook "
+                             f"oracle ({bad})")
+        ctx.stat("deep:small twin checked against the textbook oracle")
+        if c.deterministic:
+            check_table(ctx, "D", c.kwargs("D"), [c.word], "deep_small_twin", 60, 80)
+        else:
+            check_table(ctx, "N", nspec, [c.word], "deep_small_twin", 60, 80)
+    for v in vcases:
+        if not other_rules_ok(v.spec) or Ref("D", v.spec).two_moves() != (v.expect != "ok"):
+            raise InfraError(f"pda_deep: expectation of the small twin {v.label()} disagrees with the brute-force "
+                             f"two-moves test")
+        ctx.stat("deep:small twin checked against the textbook oracle")
+        check_table(ctx, "D", v.spec, [""], "deep_small_twin", 12, 80)
+
+
+def deep_family(ctx: Ctx):
+    """Size thresholds (recursion limit near depth 1000, caches of 128 entries, cut-offs, quadratic copies): see
+    harness/pda_deep.py.  ≈ 4 s per quick run on the unchanged tree."""
+    deep_selftest(ctx)
+    cases, vcases = PD.plan(ctx.rng, ctx.thorough())
+    for c in cases:
+        check_deep(ctx, c, "deep_large_instances")
+    for v in vcases:
+        check_deep_ctor(ctx, v, "deep_large_instances")
+
+
 # ----------------------------------------------------------------- corpus
 def corpus():
     """Triggers of past defects (§8 F7), killers of the Appendix-D mutants m03 / m05 and
@@ -1140,6 +1314,8 @@ def run(ctx: Ctx):
             spec = rename_spec(rng, kind, spec)
         check_table(ctx, kind, spec, rand_words(rng, spec, 4, 6, kind), "random_undeclared_rows",
                     40 if thorough else 24, 80)
+    # ---- round 6: deep / large instances judged by closed form (after the older families: their streams are unchanged)
+    deep_family(ctx)
 
 
 def search(ctx: Ctx):
@@ -1160,6 +1336,17 @@ def search(ctx: Ctx):
 def replay(ctx: Ctx, path: str) -> int:
     data = json.load(open(path))
     rp = data.get("replay", data)
+    if rp.get("kind") in ("DEEP", "DEEPV"):
+        if rp["kind"] == "DEEP":
+            check_deep(ctx, PD.build(rp["family"], rp["params"]), "replay")
+        else:
+            check_deep_ctor(ctx, PD.vbuild(rp["family"], rp["params"]), "replay")
+        if ctx.prop_fails:
+            print(f"VIOLATION property=C02 replay={path}")
+            print("  " + ctx.prop_fails[0]["what"])
+            return 1
+        print("replay: property holds on this input now")
+        return 0
     spec = eval(rp["spec"], {"frozenset": frozenset})  # repr() of a spec dict produced by this harness
     words = [rp["word"]] if "word" in rp else [""]
     check_table(ctx, rp["kind"], spec, words, "replay", rp.get("level_cap", 12), rp.get("size_cap", 80))
